@@ -966,6 +966,41 @@ def underlined_snippets(out):
     return res
 
 
+POSITIONS_FIXTURE = """pragma circom 2.0.0;
+function f(a, unused) {
+  var x = a;
+  if (a > 0) {
+    var x = 2;
+    x = x + 1;
+  }
+  var dead = 5;
+  if (3 > 2) {
+    x = x + 2;
+  }
+  return x;
+}
+template Num2Bits(n) { signal input in; signal output out[n]; for (var i = 0; i < n; i++) { out[i] <== in; } }
+template T(n) {
+  signal input in;
+  signal input d;
+  signal output out;
+  signal output q;
+  signal tmp;
+  out <-- in * in;
+  q <-- in / d;
+  tmp <== in * 2;
+  component nb = Num2Bits(300);
+  nb.in <== in;
+  var z = ~in;
+}
+component main = T(3);
+"""
+# (report code, the source text of the construct the finding is about)
+POSITIONS_EXPECTED = [("CS0001", "var x = 2"), ("CS0007", "a, unused"), ("CS0008", "x = x + 1"), ("CS0006", "var dead = 5"), ("CS0009", "3 > 2"),
+                      ("CS0013", "out <-- in * in"), ("CS0005", "q <-- in / d"), ("CS0015", "d"), ("CS0017", "signal tmp"), ("CS0010", "Num2Bits(300)"),
+                      ("CA01", "signal input d"), ("CS0007", "n"), ("CS0006", "var z = ~in")]
+
+
 def suite_positions(exe, tier, seed):
     """C04 (BOUNDED): the label of a finding covers exactly the statement it is about, whatever precedes it in the file"""
     viol, samples = [], []
@@ -1026,11 +1061,36 @@ def suite_positions(exe, tier, seed):
             if what and len(viol) < 20:
                 viol.append({"unit": "e2e", "fn": "parse_file / report locations", "obligation": f"e2e|positions|{name}", "props": ["C04"],
                              "input": {"case": name, "source": src[:600]}, "what": f"{name}: {what}", "replay": "python3 run/e2e.py positions quick 0"})
+        # ---- many kinds of findings on one fixture: each label underlines exactly the construct the finding is about
+        fixture = POSITIONS_FIXTURE
+        for (vname, text) in [("plain", fixture), ("multibyte-comment-first", "/* \u00e9\u00e9\u00e9 \u4e2d\u6587 \U0001F600 */ " + fixture),
+                              ("crlf", fixture.replace("\n", "\r\n")), ("tabs", fixture.replace("  ", "\t"))]:
+            path = os.path.join(d, "k.circom")
+            open(path, "w", newline="").write(text)
+            rc, out, err = run_cli(exe, ["-v", path], d)
+            evals += 1
+            if rc is None or "panicked" in err or rc not in (0, 1):
+                if len(viol) < 20:
+                    viol.append({"unit": "e2e", "fn": "parse_file / report locations", "obligation": f"e2e|positions|kinds:{vname}:run", "props": ["C04"], "input": {"case": vname},
+                                 "what": f"kinds/{vname}: the tool aborted or hung (exit {rc})", "replay": "python3 run/e2e.py positions quick 0"})
+                continue
+            got = {}
+            for (code, ln, snip) in underlined_snippets(out):
+                got.setdefault(code, set()).add(snip.strip().rstrip(";").strip())
+            for (code, want) in POSITIONS_EXPECTED:
+                if code not in got:
+                    continue          # whether the finding exists is another property's business
+                nontrivial += 1
+                if want not in got[code]:
+                    if len(viol) < 20 and not any(v["obligation"] == f"e2e|positions|kinds:{code}" for v in viol):
+                        viol.append({"unit": "e2e", "fn": "parse_file / report locations", "obligation": f"e2e|positions|kinds:{code}", "props": ["C04"],
+                                     "input": {"case": vname, "code": code, "source": text[:1500]},
+                                     "what": f"kinds/{vname}: no {code} finding underlines `{want}`; the labels of {code} underline {sorted(got[code])}", "replay": "python3 run/e2e.py positions quick 0"})
     finally:
         shutil.rmtree(d, ignore_errors=True)
     return {"unit": "e2e-positions", "evaluations": evals, "distinct_nontrivial": nontrivial, "exhaustive": False,
-            "rule": "the real CLI on a template whose `out <-- in * in;` statement is preceded by text that shifts byte offsets (multi-byte characters in comments and strings, tabs, CRLF, long lines, a byte order mark): the label of the finding about that statement underlines exactly the statement, on its line, in the terminal output and in SARIF; a file the tool cannot tokenise must be rejected with a parse error rather than analysed with shifted positions",
-            "bound": "12 placements of one statement", "samples": samples, "violations": viol}
+            "rule": "the real CLI on a template whose `out <-- in * in;` statement is preceded by text that shifts byte offsets (multi-byte characters in comments and strings, tabs, CRLF, long lines, a byte order mark): the label of the finding about that statement underlines exactly the statement, on its line, in the terminal output and in SARIF; a file the tool cannot tokenise must be rejected with a parse error rather than analysed with shifted positions; on a fixture with findings of 11 kinds (shadowing, unused parameter, dead assignment, unused variable, constant condition, both `<--` findings, divisor, intermediate signal, Num2Bits instantiation, unconstrained signal) the label of each finding underlines exactly the source text of the construct it is about",
+            "bound": "12 placements of one statement; one fixture with 13 findings of 11 kinds in 4 renderings (plain, multi-byte comment first, CRLF, tabs)", "samples": samples, "violations": viol}
 
 
 def sigassign_program(rng, n_stmts):
